@@ -63,6 +63,10 @@ def run_strop(case):
     from impl.c01 import run_strop as f
     return f(case)
 
+def run_leaf(case):
+    from impl.c01 import run_leaf as f
+    return f(case)
+
 def run_rxescape(case):
     from sigma.types import SigmaRegularExpression, SigmaRegularExpressionFlag
     fl = {"i": SigmaRegularExpressionFlag.IGNORECASE, "m": SigmaRegularExpressionFlag.MULTILINE, "s": SigmaRegularExpressionFlag.DOTALL}
